@@ -52,6 +52,18 @@ TRAINERS = [
     ("gmm_ml", dict(sw=(1, 1, 1), cap=8, thr=1e-3)),
     ("gmm_ml", dict(sw=(1, 1, 1), cap=8, thr=0.05)),
     ("gmm_map", dict(sw=(1, 0, 1), cap=8, thr=1e-3)),
+    # thresholds placed between consecutive relative changes of the in-memory trajectory (computed at run time), so that
+    # the iteration count is sensitive to any distortion of the monitored criterion (which is not publicly observable)
+    ("gmm_ml", dict(sw=(1, 1, 1), cap=9, thr="adaptive", which=0)),
+    ("gmm_ml", dict(sw=(1, 1, 1), cap=9, thr="adaptive", which=1)),
+    ("gmm_ml", dict(sw=(1, 1, 1), cap=9, thr="adaptive", which=2)),
+    ("gmm_ml", dict(sw=(1, 1, 1), cap=9, thr="adaptive", which=3)),
+    ("gmm_ml", dict(sw=(1, 0, 1), cap=9, thr="adaptive", which=0)),
+    ("gmm_ml", dict(sw=(1, 0, 1), cap=9, thr="adaptive", which=1)),
+    ("gmm_ml", dict(sw=(1, 1, 1), cap=3, thr=None, mvt=1e-3)),
+    ("gmm_map", dict(sw=(1, 1, 1), cap=3, thr=None, mvt=1e-3)),
+    ("isv", dict(y="mixed", custom_D=True)),
+    ("jfa", dict(y="inter", custom_D=True)),
 ]
 
 
@@ -120,7 +132,9 @@ def _train(case, X, A):
     if name in ("gmm_ml", "gmm_map", "gmm_kmeans"):
         sw = cfg.get("sw", (1, 1, 1))
         kw = dict(update_means=bool(sw[0]), update_variances=bool(sw[1]), update_weights=bool(sw[2]),
-                  max_fitting_steps=cfg["cap"], convergence_threshold=cfg["thr"])
+                  max_fitting_steps=cfg["cap"], convergence_threshold=cfg.get("thr_value", cfg["thr"]))
+        if "mvt" in cfg:
+            kw["mean_var_update_threshold"] = cfg["mvt"]
         if name == "gmm_map":
             g = GMMMachine(2, trainer="map", ubm=_ubm(s, o), map_relevance_factor=2.0, **kw)
         elif name == "gmm_kmeans":
@@ -136,10 +150,15 @@ def _train(case, X, A):
     y = np.array(Y6[cfg["y"]][:n]) if "y" in cfg else None
     if name == "isv":
         m = ISVMachine(r_U=1, em_iterations=2, ubm=_ubm(s, o), random_state=0, relevance_factor=4.0)
+        if cfg.get("custom_D"):
+            m.D = np.asarray(m.D, float) * 1.5 + 0.25 * s  # a residual scale assigned by the user
         m.fit_using_array(A, y)
         return dict(U=np.array(m.U), D=np.array(m.D))
     if name == "jfa":
         m = JFAMachine(r_U=1, r_V=1, em_iterations=2, ubm=_ubm(s, o), random_state=0, relevance_factor=4.0)
+        if cfg.get("custom_D"):
+            m.D = np.asarray(m.D, float) * 1.5 + 0.25 * s
+            m.U = np.asarray(m.U, float) * 0.5
         m.fit_using_array(A, y)
         return dict(U=np.array(m.U), V=np.array(m.V), D=np.array(m.D))
     if name == "wccn":
@@ -169,6 +188,28 @@ def run_case(case):
     X, s, o = _setup(case)
     tier = case.get("tier", "quick")
     name = case["trainer"]
+    if case["cfg"].get("thr") == "adaptive":
+        from mc import oracle_gmm as og
+
+        Ls = []
+        with dask.config.set(scheduler="sync"):
+            for k in range(0, 8):
+                cfgk = dict(case["cfg"], cap=k, thr=None)
+                r = _train(dict(case, cfg=cfgk), X, X.copy())
+                Ls.append(float(og.ll(X, r["weights"], r["means"], r["variances"]).mean()))
+        rel = [abs((Ls[k - 2] - Ls[k - 1]) / Ls[k - 2]) for k in range(2, 8) if Ls[k - 2] != 0]
+        # candidates: 2 % above / below the relative change of iterations 3, 4, 5 (well separated from the neighbouring
+        # iterations' values, so the in-memory stop is unambiguous while a 2 % distortion of the criterion changes it)
+        cands = []
+        for i in range(1, min(4, len(rel))):
+            r = rel[i]
+            others = [x for j, x in enumerate(rel) if j != i]
+            if r > 1e-12 and all(abs(x - r) > 0.1 * r for x in others):
+                cands += [r * 1.02, r * 0.98]
+        if len(cands) <= case["cfg"]["which"]:
+            c.count("adaptive_threshold_unavailable")
+            return c.result(nontrivial=False)
+        case = dict(case, cfg=dict(case["cfg"], thr_value=float(cands[case["cfg"]["which"]])))
     tags = dict(trainer=name, mode=case["mode"], feats=len(case["feats"]))
     with dask.config.set(scheduler="sync"):
         ref = _train(case, X, X.copy())
